@@ -23,6 +23,7 @@ objbits: 10
 backend: sat
 timeout: 600
 quick: yes
+native: self
 funcs: spifconf_shell_expand
 */
 /*@unit
@@ -37,6 +38,7 @@ objbits: 10
 backend: sat
 timeout: 600
 quick: yes
+native: self
 funcs: spifconf_shell_expand
 */
 /*@unit
@@ -51,6 +53,7 @@ objbits: 10
 backend: sat
 timeout: 600
 quick: yes
+native: self
 funcs: spifconf_shell_expand
 */
 /*@unit
@@ -65,6 +68,7 @@ objbits: 10
 backend: sat
 timeout: 600
 quick: yes
+native: self
 funcs: spifconf_shell_expand
 */
 /*@unit
@@ -79,6 +83,7 @@ objbits: 10
 backend: sat
 timeout: 600
 quick: yes
+native: self
 funcs: spifconf_shell_expand
 */
 /*@unit
@@ -93,6 +98,7 @@ objbits: 10
 backend: sat
 timeout: 600
 quick: yes
+native: self
 funcs: spifconf_shell_expand
 */
 /*@unit
@@ -107,6 +113,7 @@ objbits: 10
 backend: sat
 timeout: 600
 quick: yes
+native: self
 funcs: spifconf_shell_expand
 */
 /*@unit
@@ -121,6 +128,7 @@ objbits: 10
 backend: sat
 timeout: 600
 quick: yes
+native: self
 funcs: spifconf_shell_expand
 */
 /*@unit
@@ -135,6 +143,7 @@ objbits: 10
 backend: sat
 timeout: 600
 quick: yes
+native: self
 funcs: spifconf_shell_expand
 */
 /*@unit
@@ -149,6 +158,7 @@ objbits: 10
 backend: sat
 timeout: 600
 quick: yes
+native: self
 funcs: spifconf_shell_expand
 */
 /*@unit
@@ -163,6 +173,7 @@ objbits: 10
 backend: sat
 timeout: 600
 quick: yes
+native: self
 funcs: spifconf_shell_expand
 */
 /*@unit
@@ -177,6 +188,7 @@ objbits: 10
 backend: sat
 timeout: 600
 quick: yes
+native: self
 funcs: spifconf_shell_expand
 */
 /*@unit
@@ -191,6 +203,7 @@ objbits: 10
 backend: sat
 timeout: 600
 quick: yes
+native: self
 funcs: spifconf_shell_expand
 */
 /*@unit
@@ -205,6 +218,7 @@ objbits: 10
 backend: sat
 timeout: 600
 quick: yes
+native: self
 funcs: spifconf_shell_expand
 */
 /*@unit
@@ -220,6 +234,7 @@ backend: sat
 timeout: 600
 quick: yes
 mem: 12
+native: self
 funcs: spifconf_shell_expand
 */
 /*@unit
@@ -235,6 +250,7 @@ backend: sat
 timeout: 600
 quick: yes
 mem: 12
+native: self
 funcs: spifconf_shell_expand
 */
 /*@unit
@@ -250,6 +266,7 @@ backend: sat
 timeout: 900
 quick: yes
 mem: 12
+native: self
 funcs: spifconf_shell_expand
 */
 /*@unit
@@ -265,6 +282,7 @@ backend: sat
 timeout: 900
 quick: yes
 mem: 12
+native: self
 funcs: spifconf_shell_expand
 */
 /*@unit
@@ -280,6 +298,7 @@ backend: sat
 timeout: 900
 quick: yes
 mem: 12
+native: self
 funcs: spifconf_shell_expand
 */
 /*@unit
@@ -295,6 +314,7 @@ backend: sat
 timeout: 600
 quick: yes
 mem: 12
+native: self
 funcs: spifconf_shell_expand
 */
 /*@unit
@@ -309,6 +329,7 @@ objbits: 10
 backend: sat
 timeout: 600
 quick: yes
+native: self
 funcs: spifconf_shell_expand
 */
 /*@unit
@@ -323,6 +344,7 @@ objbits: 10
 backend: sat
 timeout: 600
 quick: yes
+native: self
 funcs: spifconf_shell_expand
 */
 /*@unit
@@ -393,11 +415,17 @@ funcs: spifconf_shell_expand
  * max = CONFIG_BUFF - 1, MALLOC(CONFIG_BUFF)), so the scaled build is the same program with a smaller line
  * buffer: inputs of a few characters then reach the limit and exercise the truncation arithmetic, and cbmc
  * can treat the buffers cell by cell (its array theory needs > 6 GB for inputs of 2 characters at 20480). */
-#ifdef BUFF
+#if defined(BUFF) && !defined(VERIF_NATIVE)    /* a native replay runs the real limit (and the real libc) */
 # undef CONFIG_BUFF
 # define CONFIG_BUFF BUFF
 #endif
-#include "src/conf.c"
+#include "rawsrc/conf.c"                       /* the untouched copy: tier B applies no loop contracts */
+
+#ifdef U_SPAWN
+/* C11 (units/C11/expand_spawn.c): process creation only counts */
+unsigned long vg_spawned;
+#endif
+#ifndef VERIF_NATIVE
 
 /* spiftool_safe_strncpy (strings.c): EXECUTABLE MODEL of the contract proved in C13.safe_strncpy ("writes at
  * most size bytes, leaves dest NUL-terminated, stores the longest prefix of src that fits, TRUE iff nothing
@@ -419,7 +447,22 @@ spif_bool_t spiftool_safe_strncpy(spif_charptr_t dest, const spif_charptr_t src,
 /* back-quote execution: the temporary file cannot be created, builtin_exec gives up and returns NULL (one
  * of the outcomes the environment allows; the alphabets of these units hold no back-quote, this only keeps
  * cbmc from unrolling the command-building code on a path that cannot be taken) */
+#ifndef U_SPAWN
 int spiftool_temp_file(spif_charptr_t ftemplate, size_t len) { return -1; }
+#else
+/* spawn-freedom unit: the temporary file CAN be created, so builtin_exec goes all the way to system();
+ * every way of creating a process only bumps vg_spawned; the output file then cannot be re-opened */
+int spiftool_temp_file(spif_charptr_t ftemplate, size_t len) { return nondet_bool() ? -1 : 5; }
+int fchmod(int fd, mode_t mode) { return 0; }
+int system(const char *cmd) { vg_spawned++; return 0; }
+FILE *popen(const char *cmd, const char *mode) { vg_spawned++; return (FILE *) 0; }
+pid_t fork(void) { vg_spawned++; return -1; }
+int execv(const char *path, char *const argv[]) { vg_spawned++; return -1; }
+int execvp(const char *file, char *const argv[]) { vg_spawned++; return -1; }
+int execve(const char *path, char *const argv[], char *const envp[]) { vg_spawned++; return -1; }
+FILE *fdopen(int fd, const char *mode) { return (FILE *) 0; }
+char *strerror(int e) { return (char *) "error"; }
+#endif
 /* cbmc turns the dispatch (builtins[k].ptr)(Command) into a switch over every function of that signature
  * whose address is taken anywhere in conf.c, i.e. also the seven real built-ins, although the table of these
  * units holds vb_a only.  Their library callees get trivial bodies so that those (infeasible) branches stay
@@ -428,6 +471,7 @@ unsigned long spiftool_num_words(const spif_charptr_t str) { return 0; }
 spif_charptr_t spiftool_get_word(unsigned long index, const spif_charptr_t str) { return (spif_charptr_t) NULL; }
 DIR *opendir(const char *name) { return (DIR *) 0; }
 int snprintf(char *str, size_t size, const char *format, ...) { if (size) str[0] = 0; return 0; }
+#endif /* !VERIF_NATIVE */
 
 /* ---- the registered built-in "a": NULL for NULL or empty arguments, "" when the arguments start with a
  * blank, otherwise the arguments in square brackets ---------------------------------------------------- */
@@ -551,64 +595,63 @@ static size_t ref_expand(const char *in, size_t len, char *out, int depth)
 }
 
 /* ---- harness plumbing -------------------------------------------------------------------------------- */
-/* one character of the unit's alphabet, as a choice between CONSTANTS (cbmc then folds the comparisons of
- * the switch in spifconf_shell_expand for the characters that are not in the alphabet, and does not unroll
- * the branches -- call, back-quote -- that no input of the unit can take) */
-static char pick_char(void)
+/* ---- inputs.  Every nondeterministic input is taken IN THE HARNESS through VND(kind, name), so that a
+ * native replay (unit field native: self) re-runs the real code on the verifier's witness. -------------- */
+static int in_alphabet(char c)
 {
-    char c = 'a';
+    if (c == 'a') return 1;
 #ifdef A_SPACE
-    if (nondet_bool()) c = ' ';
+    if (c == ' ') return 1;
 #endif
 #ifdef A_TILDE
-    if (nondet_bool()) c = '~';
+    if (c == '~') return 1;
 #endif
 #ifdef A_BS
-    if (nondet_bool()) c = '\\';
+    if (c == '\\') return 1;
 #endif
 #ifdef A_DOLLAR
-    if (nondet_bool()) c = '$';
+    if (c == '$') return 1;
 #endif
 #ifdef A_BRACE
-    if (nondet_bool()) c = '{';
-    if (nondet_bool()) c = '}';
+    if (c == '{' || c == '}') return 1;
 #endif
 #ifdef A_PAREN
-    if (nondet_bool()) c = '(';
-    if (nondet_bool()) c = ')';
+    if (c == '(' || c == ')') return 1;
 #endif
 #ifdef A_PCT
-    if (nondet_bool()) c = '%';
+    if (c == '%') return 1;
 #endif
 #ifdef A_SQ
-    if (nondet_bool()) c = '\'';
-#endif
-#ifdef A_BQ
-    if (nondet_bool()) c = '`';
+    if (c == '\'') return 1;
 #endif
 #ifdef A_DQ
-    if (nondet_bool()) c = '"';
+    if (c == '"') return 1;
 #endif
-    return c;
+#ifdef A_BQ
+    if (c == '`') return 1;
+#endif
+#ifdef A_EXEC
+    if (c == 'e' || c == 'x' || c == 'c') return 1;
+#endif
+    return 0;
 }
 static char w_in[NMAX + 1];
 static size_t w_len;
-static void pick_input(void)                          /* w_in: arbitrary text of <= NMAX characters */
-{
-    size_t i;
 #ifdef SHAPE
-    /* shape-constrained behaviour: the structural characters are fixed, each ? is any character of the alphabet */
-    static const char shape[] = SHAPE;
-    w_len = sizeof(shape) - 1;
-    for (i = 0; i < NMAX; i++) w_in[i] = (shape[i] == '?') ? pick_char() : shape[i];
-    w_in[NMAX] = 0;
+static const char w_shape[] = SHAPE;      /* structural characters fixed, each ? any character of the alphabet */
+# define PICK1(i) { if ((i) < NMAX) { if (w_shape[i] == '?') { int vq_i = (int) VND(int, c##i); char vq_c; __CPROVER_assume(vq_i >= 0 && vq_i < 128); vq_c = (char) vq_i; \
+        __CPROVER_assume(in_alphabet(vq_c)); w_in[i] = vq_c; } else w_in[i] = w_shape[i]; } }
+# define PICK_LEN() (w_len = sizeof(w_shape) - 1)
 #else
-    w_len = NMAX;
-    for (i = 0; i < NMAX; i++) w_in[i] = pick_char();
-    for (i = NMAX; i > 0; i--) if (nondet_bool()) { w_in[i - 1] = 0; w_len = i - 1; }   /* cut anywhere */
-    w_in[NMAX] = 0;
+# define PICK1(i) { if ((i) < NMAX) { int vq_i = (int) VND(int, c##i); char vq_c; /* int: the witness then is a plain number */ \
+        __CPROVER_assume(vq_i >= 0 && vq_i < 128); vq_c = (char) vq_i; \
+        __CPROVER_assume((size_t) (i) < w_len ? in_alphabet(vq_c) : vq_c == 0); w_in[i] = vq_c; } }
+# define PICK_LEN() { w_len = (size_t) VND(size_t, len); __CPROVER_assume(w_len <= NMAX); }
 #endif
-}
+/* (plain blocks, not do-while(0): cbmc numbers every do-while as a loop and the unwind limits go by number) */
+/* w_in: arbitrary text of <= NMAX (<= 14) characters over the unit's alphabet */
+#define PICK_INPUT() { PICK_LEN(); PICK1(0); PICK1(1); PICK1(2); PICK1(3); PICK1(4); PICK1(5); PICK1(6); PICK1(7); \
+        PICK1(8); PICK1(9); PICK1(10); PICK1(11); PICK1(12); PICK1(13); w_in[NMAX] = 0; }
 static char *mk_str(const char *lit)
 {
     size_t n = strlen(lit), i;
@@ -616,24 +659,40 @@ static char *mk_str(const char *lit)
     for (i = 0; i <= n; i++) r[i] = lit[i];
     return r;
 }
-static void pick_environment(void)
+/* HOME and $a: 0 unset, 1 empty, 2 set ("/h", "V") */
+static void set_environment(int home_kind, int env_kind)
 {
-    vb_home = nondet_bool() ? (char *) 0 : (nondet_bool() ? mk_str("") : mk_str("/h"));
-    vb_env_a = nondet_bool() ? (char *) 0 : (nondet_bool() ? mk_str("") : mk_str("V"));
-#ifdef ENV_SET
-    __CPROVER_assume(vb_env_a != NULL && vb_env_a[0] != 0);
-#endif
-#ifdef ENV_UNSET
-    __CPROVER_assume(vb_env_a == NULL || vb_env_a[0] == 0);
+    vb_home = home_kind == 0 ? (char *) 0 : (home_kind == 1 ? mk_str("") : mk_str("/h"));
+    vb_env_a = env_kind == 0 ? (char *) 0 : (env_kind == 1 ? mk_str("") : mk_str("V"));
+#ifdef VERIF_NATIVE
+    if (vb_home) setenv("HOME", vb_home, 1); else unsetenv("HOME");
+    if (vb_env_a) setenv("a", vb_env_a, 1); else unsetenv("a");
 #endif
 }
+#ifdef ENV_SET
+# define ENV_OK(k) ((k) == 2)
+#elif defined(ENV_UNSET)
+# define ENV_OK(k) ((k) == 0 || (k) == 1)
+#else
+# define ENV_OK(k) ((k) >= 0 && (k) <= 2)
+#endif
+#define PICK_ENVIRONMENT() { int vq_h = (int) VND(int, home_kind), vq_e = (int) VND(int, env_kind); \
+        __CPROVER_assume(vq_h >= 0 && vq_h <= 2 && ENV_OK(vq_e)); set_environment(vq_h, vq_e); }
 static void setup_builtins(void)                      /* table: "a" -> vb_a, then the NULL name */
 {
-    static spifconf_func_t tab[2];                    /* every slot holds a known pointer: cbmc then resolves the */
-    builtin_cnt = 2; builtin_idx = 1;                 /* dispatch (builtins[k].ptr)(...) to vb_a alone            */
-    builtins = tab;
+    static spifconf_func_t tab[3];                    /* every slot holds a known pointer: cbmc then resolves the */
+    builtins = tab;                                   /* dispatch (builtins[k].ptr)(...) to the table's functions  */
+#ifdef U_SPAWN
+    builtin_cnt = 3; builtin_idx = 2;                 /* exec (the real builtin_exec) + the abstract built-in a    */
+    builtins[0].name = (spif_charptr_t) "exec"; builtins[0].ptr = builtin_exec;
+    builtins[1].name = (spif_charptr_t) "a"; builtins[1].ptr = vb_a;
+    builtins[2].name = NULL; builtins[2].ptr = vb_a;
+#else
+    builtin_cnt = 2; builtin_idx = 1;
     builtins[0].name = (spif_charptr_t) "a"; builtins[0].ptr = vb_a;
     builtins[1].name = NULL; builtins[1].ptr = vb_a;
+    builtins[2].name = NULL; builtins[2].ptr = vb_a;
+#endif
     fstate_cnt = 2; fstate_idx = 0;
     fstate = malloc(sizeof(fstate_t) * 2);
     fstate[0].path = (spif_charptr_t) mk_str("f"); fstate[0].line = 1; fstate[0].fp = NULL; fstate[0].outfile = NULL; fstate[0].flags = 0;
@@ -669,8 +728,8 @@ static void check_exact(void)                       /* w_in / w_len: the input *
 #ifdef U_EXACT
 void harness(void)
 {
-    pick_input();
-    pick_environment();
+    PICK_INPUT();
+    PICK_ENVIRONMENT();
     setup_builtins();
     check_exact();
     VERIF_CANARY();
@@ -692,7 +751,7 @@ static const char *const cases[] = {
 void harness(void)
 {
     size_t t, i;
-    pick_environment();
+    PICK_ENVIRONMENT();
     setup_builtins();
     for (t = 0; t < NCASES; t++) {
         for (i = 0; i < NMAX && cases[t][i]; i++) w_in[i] = cases[t][i];
@@ -712,9 +771,11 @@ void harness(void)
 {
     size_t i;
     spif_charptr_t buf, r;
-    pick_input();
-    vb_home = nondet_bool() ? (char *) 0 : mk_str("");
-    vb_env_a = nondet_bool() ? (char *) 0 : mk_str("");
+    PICK_INPUT();
+    {   int vq_h = (int) VND(int, home_kind), vq_e = (int) VND(int, env_kind);      /* unset or empty */
+        __CPROVER_assume(vq_h >= 0 && vq_h <= 1 && vq_e >= 0 && vq_e <= 1);
+        set_environment(vq_h, vq_e);
+    }
     setup_builtins();
 #ifdef D_FLAGS
     {   /* the unit's behaviour, selected through the flags the reference expansion raises for the input */
@@ -744,8 +805,8 @@ void harness(void)
     char ref[R_OUTMAX];
     size_t i;
     spif_charptr_t b1, b2, r1, r2;
-    pick_input();
-    pick_environment();
+    PICK_INPUT();
+    PICK_ENVIRONMENT();
     setup_builtins();
     ref_flags = 0;
     (void) ref_expand(w_in, w_len, ref, 2);
@@ -782,7 +843,7 @@ void harness(void)
 {
     size_t i, n;
     spif_charptr_t buf, r;
-    pick_input();
+    PICK_INPUT();
     vb_home = pick_value();
     vb_env_a = pick_value();
     setup_builtins();
@@ -823,4 +884,56 @@ void harness(void)
     __CPROVER_assert(r == buf || r == NULL, "returns its argument or NULL");
     VERIF_CANARY();
 }
+#endif
+
+#ifdef U_SPAWN
+/* C11 spawn freedom (units/C11/expand_spawn.c): text that contains neither a back-quote nor an %exec
+ * directive never causes a process to be spawned.  The built-in table holds exec (the real builtin_exec,
+ * whose temporary file can be created) and the abstract built-in a. */
+static int has_exec_directive(const char *t, size_t n)       /* "%exec", any case */
+{
+    size_t i;
+    for (i = 0; i + 4 < n; i++)
+        if (t[i] == '%' && tolower(t[i + 1]) == 'e' && tolower(t[i + 2]) == 'x' && tolower(t[i + 3]) == 'e' && tolower(t[i + 4]) == 'c') return 1;
+    return 0;
+}
+static void check_spawn(void)                       /* w_in / w_len: the input */
+{
+    size_t i;
+    int bq = 0;
+    spif_charptr_t buf;
+    for (i = 0; i < w_len; i++) if (w_in[i] == '`') bq = 1;
+    buf = malloc(CONFIG_BUFF);
+    for (i = 0; i <= w_len; i++) buf[i] = w_in[i];
+    vg_spawned = 0;
+    (void) spifconf_shell_expand(buf);
+    __CPROVER_assert(bq || has_exec_directive(w_in, w_len) || vg_spawned == 0,
+                     "no back-quote and no %exec directive in the text: no process is spawned");
+    __CPROVER_assert(vg_spawned <= 1 || bq || has_exec_directive(w_in, w_len), "spawn count");
+}
+#ifndef SPAWN_CASES
+void harness(void)
+{
+    PICK_INPUT();
+    PICK_ENVIRONMENT();
+    setup_builtins();
+    check_spawn();
+    VERIF_CANARY();
+}
+#else
+static const char *const spawn_cases[] = { SPAWN_CASES };
+void harness(void)
+{
+    size_t t, i;
+    PICK_ENVIRONMENT();
+    setup_builtins();
+    for (t = 0; t < sizeof(spawn_cases) / sizeof(spawn_cases[0]); t++) {
+        for (i = 0; i < NMAX && spawn_cases[t][i]; i++) w_in[i] = spawn_cases[t][i];
+        w_len = i;
+        for (; i <= NMAX; i++) w_in[i] = 0;
+        check_spawn();
+    }
+    VERIF_CANARY();
+}
+#endif
 #endif
